@@ -74,6 +74,9 @@ GInit ==
   \* stored values whose length is around a switch of the length prefix, for a text, a bytes and a JSON string leaf
   /\ \A t \in VintSwitches : \A len \in {t - 1, t, t + 1} : \A kind \in {"text", "bytes", "json"} :
        PrintT(<<"CASE", ToJson([what |-> "vint", kind |-> kind, len |-> len, prefix_bytes |-> VintLen(len)])>>)
+  \* documents with many values, 2 / 3 / 5 multi-valued fields interleaved
+  /\ \A n \in {ManyValuesSmallSort, ManyValuesSmallSort + 1, ManyValuesSmallSort + 2, 40, 60} : \A nf \in {2, 3, 5} :
+       PrintT(<<"CASE", ToJson([what |-> "manyvals", n |-> n, nfields |-> nf])>>)
 GNext == done' = TRUE /\ UNCHANGED svars
 GSpec == GInit /\ [][GNext]_<<done, svars>>
 =============================================================================
